@@ -151,9 +151,18 @@ def run(chk, repo):
     chk.require(len(loops) == 2, "Poly.__mul__: double loop not found")
     (k2, v2), (k1, v1) = [[unparse(e) for e in l.target.elts] for l in loops]
     try:
-        ev = Evaluator()
+        envm = {}
+        blk_ = getattr(br._parent, "body", [])
+        for st_ in blk_:
+            if st_ is br:
+                break
+            if isinstance(st_, ast.Assign) and len(st_.targets) == 1 and isinstance(st_.targets[0], ast.Name):
+                envm[st_.targets[0].id] = Evaluator(envm).ev(st_.value)
+        ev = Evaluator(envm)
         keyt = ev.ev(br.test.left)
         acc, ins = br.body[0], br.orelse[0]
+        if isinstance(br.test.ops[0], ast.NotIn):
+            acc, ins = ins, acc
         ok = keyt == RF.sym(k1) + RF.sym(k2) \
             and isinstance(acc, ast.AugAssign) and isinstance(acc.op, ast.Add) and ev.ev(acc.target.slice) == keyt \
             and ev.ev(acc.value) == RF.sym(v1) * RF.sym(v2) \
@@ -205,20 +214,83 @@ def run(chk, repo):
                "__operators__ = %r" % (opsv,), why="a ring operator of the property is not generated", node=ops_decl)
     # pow
     pw = repo.find(LP, "Poly.__pow__")
-    arms = {unparse(s.test): s for s in docstring_free(pw.body) if isinstance(s, ast.If)}
-    ok = "other == 0" in arms and unparse(arms["other == 0"].body[0]) == "return Poly(1, zero=self.zero)"
-    chk.decide(ok, "C07.product", W("Poly.__pow__"), "p ** 0 = 1", why="zeroth power must be the constant one", node=pw)
-    ok = "len(self._data) == 0" in arms and unparse(arms["len(self._data) == 0"].body[0]) == "return Poly(zero=self.zero)"
-    chk.decide(ok, "C07.product", W("Poly.__pow__"), "empty ** n = empty", why="power of the zero polynomial", node=pw)
-    if "other == 0" in arms and "len(self._data) == 0" in arms:
-        chk.decide(arms["other == 0"].lineno < arms["len(self._data) == 0"].lineno, "C07.product", W("Poly.__pow__"),
-                   "the exponent-0 arm is tested before the empty-polynomial arm",
-                   why="(p - p) ** 0 must be 1 (the empty product), and p(q) with an empty q must keep p's constant "
-                       "term: testing emptiness first returns the empty polynomial", node=pw)
-    ok = "len(self._data) == 1" in arms
+    from .c08 import leaves as _leaves
+    pbody = docstring_free(pw.body)
+    # statements after the normalisation of a Poly exponent
+    pstart = 0
+    for i_, st_ in enumerate(pbody):
+        if isinstance(st_, ast.If) and "isinstance(other, Poly)" in unparse(st_.test):
+            pstart = i_ + 1
+    alias = {}
+    for st_ in pbody[pstart:]:
+        if isinstance(st_, ast.Assign) and len(st_.targets) == 1 and isinstance(st_.targets[0], ast.Name) \
+                and unparse(st_.value) in ("len(self._data)", "len(self)"):
+            alias[st_.targets[0].id] = True
+
+    def holds(test, n, zero_exp):
+        """truth of a guard for a polynomial of n terms and exponent == 0 or not; None when not interpretable"""
+        if isinstance(test, ast.UnaryOp) and isinstance(test.op, ast.Not):
+            r_ = holds(test.operand, n, zero_exp)
+            return None if r_ is None else not r_
+        if isinstance(test, ast.BoolOp):
+            vals = [holds(v_, n, zero_exp) for v_ in test.values]
+            if any(v_ is None for v_ in vals):
+                return None
+            return all(vals) if isinstance(test.op, ast.And) else any(vals)
+        t_ = unparse(test)
+        if t_ in ("other == 0", "0 == other"):
+            return zero_exp
+        if t_ in ("other != 0", "0 != other"):
+            return not zero_exp
+        if t_ in alias or t_ in ("self._data", "len(self._data)", "len(self)"):
+            return n != 0
+        if isinstance(test, ast.Compare) and len(test.ops) == 1:
+            l_, r_ = unparse(test.left), unparse(test.comparators[0])
+            isn = lambda x: x in alias or x in ("len(self._data)", "len(self)")
+            try:
+                if isn(l_) and isinstance(test.comparators[0], ast.Constant):
+                    a_, b_ = n, test.comparators[0].value
+                elif isn(r_) and isinstance(test.left, ast.Constant):
+                    a_, b_ = test.left.value, n
+                else:
+                    return None
+            except Exception:
+                return None
+            op_ = type(test.ops[0])
+            return {ast.Eq: a_ == b_, ast.NotEq: a_ != b_, ast.Lt: a_ < b_, ast.LtE: a_ <= b_, ast.Gt: a_ > b_,
+                    ast.GtE: a_ >= b_}.get(op_)
+        return None
+    plv = [l_ for l_ in _leaves([s_ for s_ in pbody[pstart:] if not isinstance(s_, ast.Assign) or True])]
+
+    def selected(n, zero_exp):
+        out_ = []
+        for l_ in plv:
+            vals = [holds(c_, n, zero_exp) for c_, pol_ in l_.conds]
+            if any(v_ is None for v_ in vals):
+                raise AnalysisError("Poly.__pow__: guard not interpretable: %s" % [unparse(c_) for c_, _ in l_.conds])
+            if all(v_ == pol_ for v_, (c_, pol_) in zip(vals, l_.conds)):
+                out_.append(l_)
+        return out_
+    def ret_of(l_):
+        rs = [s_ for s_ in l_.stmts if isinstance(s_, ast.Return)]
+        return rs[-1] if rs else None
+    for n_ in (0, 1, 2, 5):
+        sel = selected(n_, True)
+        r_ = ret_of(sel[0]) if len(sel) == 1 else None
+        chk.decide(r_ is not None and unparse(r_.value) == "Poly(1, zero=self.zero)", "C07.product", W("Poly.__pow__"),
+                   "p ** 0 = 1 for a polynomial of %s term(s)" % ("%d" % n_ if n_ < 5 else "several"),
+                   why="the zeroth power is the constant one whatever p is - also for the empty polynomial ((p - p) ** 0 is "
+                       "the empty product, and p(q) with an empty q keeps p's constant term): the exponent must be "
+                       "tested before the emptiness", node=r_ or pw)
+    sel = selected(0, False)
+    r_ = ret_of(sel[0]) if len(sel) == 1 else None
+    chk.decide(r_ is not None and unparse(r_.value) == "Poly(zero=self.zero)", "C07.product", W("Poly.__pow__"),
+               "empty ** n = empty", why="power of the zero polynomial", node=r_ or pw)
+    sel = selected(1, False)
+    r_ = ret_of(sel[0]) if len(sel) == 1 else None
+    ok = r_ is not None
     if ok:
-        r = arms["len(self._data) == 1"].body[0]
-        ge = [n for n in ast.walk(r) if isinstance(n, ast.GeneratorExp)]
+        ge = [n for n in ast.walk(r_) if isinstance(n, ast.GeneratorExp)]
         ok = len(ge) == 1 and isinstance(ge[0].elt, ast.Tuple)
         if ok:
             kx, vx = ge[0].elt.elts
@@ -230,18 +302,22 @@ def run(chk, repo):
             except Inconclusive:
                 ok = False
     chk.decide(ok, "C07.product", W("Poly.__pow__"), "single term: (v x^k) ** n = v**n x^(k*n)",
-               why="monomial power must multiply the exponent and raise the coefficient", node=pw)
-    last = max((n for n in own_nodes(pw) if isinstance(n, ast.Return)), key=lambda n: n.lineno)
-    v = last.value
-    ok = False
-    if isinstance(v, ast.Call) and canon_call(mod, v) == "functools.reduce" and canon(mod, v.args[0]) == "operator.mul":
-        seq = v.args[1]
-        if isinstance(seq, ast.BinOp) and isinstance(seq.op, ast.Add) and isinstance(seq.left, ast.ListComp) \
-                and unparse(seq.right) == "[self]" and unparse(seq.left.elt) == "self.copy()":
-            cnt = e4.size_of(seq.left.generators[0].iter)
-            ok = cnt is not None and cnt + 1 == RF.sym("other")
-    chk.decide(ok, "C07.product", W("Poly.__pow__"), "general: " + short(last),
-               why="p ** n must be the product of exactly n factors p", node=last)
+               why="monomial power must multiply the exponent and raise the coefficient", node=r_ or pw)
+    for n_ in (2, 5):
+        sel = selected(n_, False)
+        last = ret_of(sel[0]) if len(sel) == 1 else None
+        ok = False
+        if last is not None:
+            v = last.value
+            if isinstance(v, ast.Call) and canon_call(mod, v) == "functools.reduce" and canon(mod, v.args[0]) == "operator.mul":
+                seq = v.args[1]
+                if isinstance(seq, ast.BinOp) and isinstance(seq.op, ast.Add) and isinstance(seq.left, ast.ListComp) \
+                        and unparse(seq.right) == "[self]" and unparse(seq.left.elt) == "self.copy()":
+                    cnt = e4.size_of(seq.left.generators[0].iter)
+                    ok = cnt is not None and cnt + 1 == RF.sym("other")
+        chk.decide(ok, "C07.product", W("Poly.__pow__"), "general (%s terms): %s" % (n_ if n_ < 5 else "several",
+                                                                                      short(last) if last is not None else "?"),
+                   why="p ** n must be the product of exactly n factors p", node=last or pw)
     td = repo.find(LP, "Poly.__truediv__")
     gens = [n for n in ast.walk(td) if isinstance(n, ast.GeneratorExp)]
     okc = 0
@@ -328,42 +404,82 @@ def run(chk, repo):
     chk.require(len(hs) == 1, "Poly.__call__: horner_step not found")
     hb = docstring_free(hs[0].body)
     try:
-        env = {}
-        for st in hb[:2]:
-            # opower, oresult = old
-            pass
-        sc = [s for s in hb if isinstance(s, ast.Assign) and unparse(s.targets[0]) == "scale"]
-        ret = hb[-1]
-        chk.require(len(sc) == 1 and isinstance(sc[0].value, ast.IfExp) and isinstance(ret, ast.Return), "horner_step shape")
-        ie = sc[0].value
-        x = RF.sym("value")
-        op, np_ = RF.sym("opower"), RF.sym("npower")
-        # generic branch
-        gen = Evaluator().ev(ie.orelse)
-        ok_gen = gen == sym_pow(x, op - np_)
-        # special branch under its own condition
         from ..cond import norm_cmp
-        c = norm_cmp(ie.test)
-        ok_sp = False
-        if c is not None and c[0] == "==":
-            cp = c[1].coeff_poly("opower")
-            if set(cp) <= {0, 1} and 1 in cp:
-                sol = -(cp.get(0, RF.const(0))) / cp[1]
-                expo = (op - np_).subst({"opower": sol})
-                sp = Evaluator().ev(ie.body)
-                try:
-                    ok_sp = sp == x ** expo.as_int()
-                except Inconclusive:
-                    ok_sp = False
-        rv = ret.value
-        ok_ret = isinstance(rv, ast.Tuple) and unparse(rv.elts[0]) == "npower" \
-            and Evaluator({"scale": RF.sym("S")}).ev(rv.elts[1]) == RF.sym("ncoeff") + RF.sym("oresult") * RF.sym("S")
-        unp = [unparse(s) for s in hb[:2]]
+        unp = [unparse(s_) for s_ in hb[:2]]
         ok_unp = unp == ["opower, oresult = old", "npower, ncoeff = new"]
-        chk.decide(ok_gen and ok_sp and ok_ret and ok_unp, "C07.eval", W("Poly.__call__.horner_step"),
-                   "R' = ncoeff + R * value ** (opower - npower) on both branches of: " + short(sc[0]),
-                   why="Horner recurrence broken (generic branch %s, consecutive-power branch %s, result %s)"
-                       % (ok_gen, ok_sp, ok_ret), node=hs[0])
+        x = RF.sym("value")
+        n_leaves = 0
+        all_ok = ok_unp
+        detail = []
+        # every return path: second component == ncoeff + oresult * value ** (opower - npower), read under the path's
+        # own equalities on opower (a special-cased consecutive power is the same formula with the difference fixed)
+        for lf in _leaves(hb[2:]):
+            rets = [s_ for s_ in lf.stmts if isinstance(s_, ast.Return)]
+            if not rets:
+                continue
+            n_leaves += 1
+            subst = {}
+            for c_, pol_ in lf.conds:
+                cn = norm_cmp(c_)
+                if cn is not None and cn[0] == "==" and pol_:
+                    cp = cn[1].coeff_poly("opower")
+                    if set(cp) <= {0, 1} and 1 in cp:
+                        sol = -(cp.get(0, RF.const(0))) / cp[1]
+                        subst["opower"] = sol
+
+            class _S(ast.NodeTransformer):
+                def visit_Name(self, n):
+                    if n.id in subst_src and isinstance(n.ctx, ast.Load):
+                        return ast.parse(subst_src[n.id], mode="eval").body
+                    return n
+            # locals of the leaf (scale = ...) resolved in order; IfExp on the same equality resolved by the path
+            lenv = {}
+            subst_src = {}
+            if "opower" in subst:
+                # write the solution back as source: only npower + const forms occur
+                k_ = (subst["opower"] - RF.sym("npower"))
+                subst_src["opower"] = "(npower + %d)" % k_.as_int()
+            for s_ in lf.stmts:
+                if isinstance(s_, ast.Assign) and len(s_.targets) == 1 and isinstance(s_.targets[0], ast.Name):
+                    v_ = s_.value
+                    if isinstance(v_, ast.IfExp):
+                        cn = norm_cmp(v_.test)
+                        if cn is not None and cn[0] == "==" and "opower" not in subst:
+                            # both branches must satisfy the formula: check each under its own assumption
+                            cp = cn[1].coeff_poly("opower")
+                            sol = -(cp.get(0, RF.const(0))) / cp[1]
+                            k_ = (sol - RF.sym("npower")).as_int()
+                            sp_src = {"opower": "(npower + %d)" % k_}
+
+                            class _S2(ast.NodeTransformer):
+                                def visit_Name(self, n):
+                                    if n.id in sp_src and isinstance(n.ctx, ast.Load):
+                                        return ast.parse(sp_src[n.id], mode="eval").body
+                                    return n
+                            special = Evaluator().ev(_S2().visit(ast.parse(unparse(v_.body), mode="eval").body))
+                            want_sp = x ** k_
+                            if special != want_sp:
+                                all_ok = False
+                                detail.append("special branch %s" % unparse(v_.body))
+                            v_ = v_.orelse
+                    lenv[s_.targets[0].id] = Evaluator(lenv).ev(_S().visit(ast.parse(unparse(v_), mode="eval").body))
+            rv = rets[-1].value
+            ok_ret = isinstance(rv, ast.Tuple) and len(rv.elts) == 2 and unparse(rv.elts[0]) == "npower"
+            if ok_ret:
+                got = Evaluator(lenv).ev(_S().visit(ast.parse(unparse(rv.elts[1]), mode="eval").body))
+                expo = Evaluator().ev(_S().visit(ast.parse("opower - npower", mode="eval").body))
+                try:
+                    want = RF.sym("ncoeff") + RF.sym("oresult") * (x ** expo.as_int())
+                except Inconclusive:
+                    want = RF.sym("ncoeff") + RF.sym("oresult") * sym_pow(x, RF.sym("opower") - RF.sym("npower"))
+                ok_ret = got == want
+            if not ok_ret:
+                all_ok = False
+                detail.append("path [%s] returns %s" % (" and ".join(unparse(c_) for c_, _ in lf.conds) or "always", unparse(rv)))
+        chk.require(n_leaves >= 1, "horner_step shape")
+        chk.decide(all_ok, "C07.eval", W("Poly.__call__.horner_step"),
+                   "R' = ncoeff + R * value ** (opower - npower) on all %d return path(s)" % n_leaves,
+                   why="Horner recurrence broken: %s" % ("; ".join(detail) or "operand unpacking changed"), node=hs[0])
     except Inconclusive as ex:
         raise AnalysisError("horner_step not interpretable: %s" % ex)
     pr = [n for n in ast.walk(call) if isinstance(n, ast.Assign) and unparse(n.targets[0]) == "pairs"]
@@ -382,7 +498,10 @@ def run(chk, repo):
     chk.decide(len(red) == 1 and unparse(red[0].targets[0]) == "(last_power, result)" or
                (len(red) == 1 and unparse(red[0].targets[0]) == "last_power, result"), "C07.eval", W("Poly.__call__"),
                short(red[0]) if red else "reduce missing", why="fold the step over all pairs", node=call)
-    last = body[-1]
+    sums = [n for n in own_nodes(call) if isinstance(n, ast.Return) and isinstance(n.value, ast.Call)
+            and unparse(n.value.func) == "sum" and n.value.args and isinstance(n.value.args[0], ast.GeneratorExp)
+            and "terms" in unparse(n.value.args[0].generators[0].iter)]
+    last = sums[-1] if len(sums) == 1 else body[-1]
     ok = isinstance(last, ast.Return) and isinstance(last.value, ast.Call) and unparse(last.value.func) == "sum"
     if ok:
         ge = last.value.args[0]
